@@ -417,6 +417,14 @@ about the wrapper's shape (translated leaf); the threads are exercised by the ha
 theorem C08_sync_unregister_waits : syncUnregisterGoodbyesOnReturn = 3 := by
   simp [syncUnregisterGoodbyesOnReturn, sync_wrappers_await.1, Zc.GenFacts.Register.broadcast_count_eq]
 
+/-- the context managers close through the public close calls — `AsyncZeroconf.__aexit__` awaits `async_close`, `Zeroconf.__exit__` calls
+`close` — so `C08_close_goodbyes_partial` / `C08_sync_close_goodbyes_partial` also cover `async with` / `with`; and `async_unregister_service`
+calls `set_server_if_missing` (a copy with `server=None` can be handed to it).  Translated call pins; the harness closes 30 % of its
+instances through `AsyncZeroconf.__aexit__` and unregisters `server=None` services through fresh copies. -/
+theorem C08_context_exit_closes :
+    Gen.Register.aexit_calls_async_close = true ∧ Gen.Register.exit_calls_close = true ∧ Gen.Register.unregister_sets_server = true :=
+  context_exit_closes
+
 /-- an info whose records cannot be put on the wire never reaches the registry: `async_update_service` and `async_register_service` run the
 dry-run encoding (which raises to the caller) before `registry.async_update` / `async_add`.  The blocks `update` / `register` of the machine
 are the *accepted* calls; a refused one is no block at all — were the order the other way round (seeded defect C08-w5-seed2) the refused
